@@ -256,7 +256,11 @@ Fixpoint inv_iter (n : nat) (B c : Z) (s : ist) : ist :=
   | O => inv_step B c s
   | S m => inv_iter m B c (inv_iter m B c s)
   end.
-Definition inv_mod (B b c : Z) : Z := i_a (inv_iter (Z.to_nat (Z.log2_up B)) B c (MkIst 1 0 b c)).
+(* after the loop (as repaired by C06-14, /repo 4753202): if (a2 != 1) reset(a)  -- "if b is not invertible, a = 0" *)
+Definition inv_mod (B b c : Z) : Z :=
+  let s := inv_iter (Z.to_nat (Z.log2_up B)) B c (MkIst 1 0 b c) in if i_a2 s =? 1 then i_a s else 0.
+(* HISTORY, not extracted: the body before C06-14 returned the last coefficient whatever the final gcd *)
+Definition inv_mod_old (B b c : Z) : Z := i_a (inv_iter (Z.to_nat (Z.log2_up B)) B c (MkIst 1 0 b c)).
 
 (* module data of rmint<K,MGA> (static p, p1, r) and of Montgomery<ruint<K>> (_p,_p1,_r,_r2,_r3, one, mOne) *)
 Record mgmod : Type := MkMod { g_p : Z; g_p1 : Z; g_r : Z; g_r2 : Z; g_r3 : Z; g_one : Z; g_mOne : Z }.
